@@ -11,81 +11,80 @@ import ForsysModel.Proofs.C15
 
 namespace Forsys.Skel
 
-/-- the contours the digital-topology argument (not proved: OpenCV's border following) delivers for a clean
-    skeleton: every contour is a cycle of at least two distinct pixels -/
-def GoodContours (cs : List (List Px)) : Prop := ∀ c ∈ cs, c.Nodup ∧ 2 ≤ c.length
+-- `GoodContours` (every contour is a cycle of at least two distinct pixels) is defined in ForsysModel/Proofs/C15.lean:
+-- def GoodContours (cs : List (List Px)) : Prop := ∀ c ∈ cs, c.Nodup ∧ 2 ≤ c.length
 
 /-! ### interning: one vertex per distinct pixel position, ids 0, 1, 2, … in first-occurrence order -/
 
 /-- the id stored with the `i`-th position is `i` -/
 theorem rawOf_key_ids (cs : List (List Px)) :
-    (rawOf cs).keys.map (·.2) = (List.range (rawOf cs).keys.length).map (fun i => (i : Int)) := by
-  sorry
+    (rawOf cs).keys.map (·.2) = (List.range (rawOf cs).keys.length).map (fun (i : Nat) => (i : Int)) := by
+  rw [(rawOf_inv cs).kinv.ids, castRange]
 
 /-- no position is stored twice: two contours that pass through the same pixel share the vertex -/
-theorem rawOf_keys_nodup (cs : List (List Px)) : ((rawOf cs).keys.map (·.1)).Nodup := by
-  sorry
+theorem rawOf_keys_nodup (cs : List (List Px)) : ((rawOf cs).keys.map (·.1)).Nodup :=
+  (rawOf_inv cs).kinv.nd
 
 /-- hence interning is injective: different ids ⇔ different positions -/
 theorem rawOf_keys_injective (cs : List (List Px)) :
-    ∀ a ∈ (rawOf cs).keys, ∀ b ∈ (rawOf cs).keys, (a.1 = b.1 ↔ a.2 = b.2) := by
-  sorry
+    ∀ a ∈ (rawOf cs).keys, ∀ b ∈ (rawOf cs).keys, (a.1 = b.1 ↔ a.2 = b.2) :=
+  (rawOf_inv cs).kinv.inj
 
 /-- every contour pixel is stored, and nothing else -/
 theorem rawOf_keys_complete (cs : List (List Px)) (p : Px) :
-    p ∈ (rawOf cs).keys.map (·.1) ↔ ∃ c ∈ cs, p ∈ c := by
-  sorry
+    p ∈ (rawOf cs).keys.map (·.1) ↔ ∃ c ∈ cs, p ∈ c :=
+  (rawOf_inv cs).complete p
 
 /-- positions are stored in the order of their first occurrence along the contours -/
 theorem rawOf_keys_first_occurrence (cs : List (List Px)) :
-    (rawOf cs).keys.map (·.1) = cs.flatten.eraseDups := by
-  sorry
+    (rawOf cs).keys.map (·.1) = cs.flatten.eraseDups :=
+  rawOf_fst cs
 
 /-! ### cells: the contour's pixel sequence mapped through the interning -/
 
 /-- one cell per contour -/
 theorem rawOf_cells_length (cs : List (List Px)) : (rawOf cs).cells.length = cs.length := by
-  sorry
+  rw [(rawOf_inv cs).cells, List.length_map]
 
 /-- the vertex cycle of the `i`-th cell is the `i`-th contour's pixel sequence mapped through the final table -/
 theorem rawOf_cells (cs : List (List Px)) :
-    (rawOf cs).cells = cs.map fun c => c.map fun p => (lookup p (rawOf cs).keys).getD 0 := by
-  sorry
+    (rawOf cs).cells = cs.map fun c => c.map fun p => (lookup p (rawOf cs).keys).getD 0 :=
+  (rawOf_inv cs).cells
 
 /-! ### mesh edges: created once, in either direction; every step of every contour is joined -/
 
 /-- no mesh edge is created twice, in either direction -/
 theorem rawOf_edges_pairwise (cs : List (List Px)) :
-    (rawOf cs).edgesAdded.Pairwise fun a b => a ≠ b ∧ a ≠ (b.2, b.1) := by
-  sorry
+    (rawOf cs).edgesAdded.Pairwise fun a b => a ≠ b ∧ a ≠ (b.2, b.1) :=
+  (rawOf_inv cs).epw
 
 /-- every step of every cell cycle, the closing step included, is joined by a stored mesh edge -/
 theorem rawOf_edges_cover (cs : List (List Px)) :
-    ∀ c ∈ (rawOf cs).cells, ∀ ab ∈ cyclicPairs c, ab ∈ (rawOf cs).edgesAdded ∨ (ab.2, ab.1) ∈ (rawOf cs).edgesAdded := by
-  sorry
+    ∀ c ∈ (rawOf cs).cells, ∀ ab ∈ cyclicPairs c, ab ∈ (rawOf cs).edgesAdded ∨ (ab.2, ab.1) ∈ (rawOf cs).edgesAdded :=
+  (rawOf_inv cs).cover
 
 /-- and every stored mesh edge is a step of some cell cycle -/
 theorem rawOf_edges_sound (cs : List (List Px)) :
-    ∀ ab ∈ (rawOf cs).edgesAdded, ∃ c ∈ (rawOf cs).cells, ab ∈ cyclicPairs c := by
-  sorry
+    ∀ ab ∈ (rawOf cs).edgesAdded, ∃ c ∈ (rawOf cs).cells, ab ∈ cyclicPairs c :=
+  (rawOf_inv cs).sound
 
 /-! ### the first loop does not raise and yields a consistent mesh -/
 
-theorem precheck_good (cs : List (List Px)) (h : GoodContours cs) : precheck cs = none := by
-  sorry
+theorem precheck_good (cs : List (List Px)) (h : GoodContours cs) : precheck cs = none :=
+  precheck_good' cs h
 
 /-- the three lists handed to the parser pattern are well-formed in the sense of C09 -/
 theorem raw_wellformed (cs : List (List Px)) (h : GoodContours cs) :
-    WFInput (rawVertices (rawOf cs)) (rawEdges (rawOf cs)) (rawCells (rawOf cs)) := by
-  sorry
+    WFInput (rawVertices (rawOf cs)) (rawEdges (rawOf cs)) (rawCells (rawOf cs)) :=
+  (rawOf_inv cs).wf h
 
 /-- the mesh after the first loop is consistent (through `ofLists_consistent` of C09) -/
 theorem rawMesh_consistent (cs : List (List Px)) (h : GoodContours cs) : (rawMesh cs).Consistent = true :=
   ofLists_consistent _ _ _ (raw_wellformed cs h)
 
 /-- `mirror_y` keeps the hypothesis: the mirrored contours are again cycles of distinct pixels -/
-theorem mirror_good (cs : List (List Px)) (h : GoodContours cs) : GoodContours (mirror cs) := by
-  sorry
+theorem mirror_good (cs : List (List Px)) (h : GoodContours cs) : GoodContours (mirror cs) :=
+  mirror_good' cs h
 
 theorem rawMesh_mirror_consistent (cs : List (List Px)) (h : GoodContours cs) :
     (rawMesh (mirror cs)).Consistent = true :=
@@ -102,5 +101,99 @@ example : (rawOf [[(0, 0), (1, 0), (1, 1), (0, 1)], [(1, 0), (2, 0), (2, 1), (1,
     ∧ (rawOf [[(0, 0), (1, 0), (1, 1), (0, 1)], [(1, 0), (2, 0), (2, 1), (1, 1)]]).keys.length = 6
     ∧ (rawOf [[(0, 0), (1, 0), (1, 1), (0, 1)], [(1, 0), (2, 0), (2, 1), (1, 1)]]).cells = [[0, 1, 2, 3], [1, 4, 5, 2]] := by
   decide +kernel
+
+/-! ### finding D16: the mesh edge the loop variable `e` keeps alive -/
+
+/-- finding D16 (signature last-mesh-edge-inside-artefact): on these contour lists (OpenCV's output on the 14x10 image of
+    corpus/C15/d16_last_edge_in_artefact.json) the mesh edge created last has both ends in one artefact group;
+    `do_t3_transition` deletes it from the dict while `create_lattice`'s loop variable `e` keeps the object alive, so its
+    id stays in `ownEdges` and the next artefact vertex raises KeyError -/
+def d16Contours : List (List Px) := [[(2,10),(3,9),(4,10),(4,11),(3,12),(2,11)], [(5,9),(6,8),(7,9),(8,10),(8,11),(7,12),(6,12),(5,12),(4,11),(4,10)], [(6,6),(7,5),(8,6),(8,7),(7,8),(6,7)], [(1,3),(2,2),(3,3),(4,4),(4,5),(5,6),(6,7),(5,8),(5,9),(4,10),(3,9),(3,8),(3,7),(3,8),(3,9),(2,10),(1,9),(1,8),(1,7),(1,6),(1,5),(1,4)], [(2,2),(3,1),(4,1),(5,1),(6,1),(7,1),(8,2),(8,3),(8,4),(7,5),(6,6),(5,6),(4,5),(4,4),(3,3)]]
+
+def isKeyError : Except Err Lattice → Bool | .error .keyError => true | _ => false
+
+theorem d16_witness : isKeyError (createLattice d16Contours false).1 = true ∧ (createLattice d16Contours false).2 = true := by
+  decide +kernel
+
+/-- the mechanism: deleting the pinned mesh edge leaves the vertex objects untouched (the stale entries in `ownEdges`
+    stay), the edge is gone from the dict and waits as `zombie` -/
+theorem delEdge_pinned_keeps_ownEdges (st : St) (k : Id) (e : SEdge) (he : st.mesh.edge? k = some e)
+    (hp : st.pinned = some k) :
+    ∃ st', st.delEdge k = .ok st' ∧ st'.mesh.vertices = st.mesh.vertices ∧ st'.mesh.edge? k = none ∧
+      st'.zombie = some e := by
+  refine ⟨{ st with mesh := { st.mesh with edges := st.mesh.edges.filter fun p => p.1 != k }, zombie := some e },
+    ?_, ?_, ?_, ?_⟩
+  · simp only [St.delEdge, he, hp, if_true]
+  · rfl
+  · exact alGet?_filter_self k _
+  · rfl
+
+/-- deleting any other mesh edge runs `__del__` at once -/
+theorem delEdge_unpinned (st : St) (k : Id) (e : SEdge) (he : st.mesh.edge? k = some e)
+    (hp : st.pinned ≠ some k) : st.delEdge k = .ok { st with mesh := st.mesh.delEdge k } := by
+  simp only [St.delEdge, he, if_neg hp]
+
+/-! ### `create_lattice` = precheck, first loop, clean-up -/
+
+theorem createLattice_unfold (cs : List (List Px)) (mir : Bool)
+    (h : precheck (if mir then mirror cs else cs) = none) :
+    createLattice cs mir = cleanup (rawMesh (if mir then mirror cs else cs)) := by
+  simp only [createLattice, h]
+
+theorem createLattice_unfold_error (cs : List (List Px)) (mir : Bool) (e : Err)
+    (h : precheck (if mir then mirror cs else cs) = some e) :
+    createLattice cs mir = (.error e, false) := by
+  simp only [createLattice, h]
+
+/-- `cleanup` with the reference held by the loop variable `e` as a parameter (verbatim copy of the body of
+    `cleanup`; `cleanupFrom_pinned` below shows that the model's `cleanup` is this function at the last mesh edge) -/
+def cleanupFrom (pin : Option Id) (m0 : Mesh) : Except Err Lattice × Bool :=
+  let bigs := m0.bigEdgesList
+  let border := borderCells m0
+  let external := externalEdges m0
+  let st0 : St := { mesh := m0, dead := [], pinned := pin, zombie := none, idReused := false }
+  match triangles st0 bigs with
+  | .error e => (.error e, false)
+  | .ok st1 =>
+    let triDel := st1.dead
+    let arts := getArtifacts st1 external
+    match groupArtifacts (arts.length + 1) st1 arts with
+    | .error e => (.error e, st1.zombie.isSome)
+    | .ok groups =>
+      let d16 := d16Pred st1 groups
+      match foldE t3 st1 groups with
+      | .error e => (.error e, d16)
+      | .ok st2 =>
+        match foldE isolatedStep (st2, true, []) st2.mesh.cells with
+        | .error e => (.error e, d16)
+        | .ok (st3, _, iso) =>
+          let st4 := st3.release
+          let m := iso.foldl (fun m c => m.delCell c) st4.mesh
+          let st5 := { st4 with mesh := m }
+          (.ok { mesh := finalMesh st5, border := border.filter (fun c => !iso.contains c),
+                 external := external.filter (fun k => (st5.mesh.edge? k).isSome),
+                 bigEdges := bigs, artifacts := groups, triangleDeleted := triDel, isolated := iso,
+                 zombieSeen := d16, idReused := st5.idReused }, d16)
+
+theorem cleanupFrom_pinned (m0 : Mesh) : cleanupFrom (m0.edges.getLast?.map (·.1)) m0 = cleanup m0 := rfl
+
+def isOk : Except Err Lattice → Bool | .ok _ => true | _ => false
+
+/-- companion of `d16_witness`: without the pinned reference the same clean-up succeeds and the D16 predicate is false -/
+theorem d16_unpinned_ok : isOk (cleanupFrom none (rawMesh d16Contours)).1 = true ∧
+    (cleanupFrom none (rawMesh d16Contours)).2 = false := by
+  decide +kernel
+
+
+/-! ### the clean-up never creates a cell and loses one only by the isolated-cell rule -/
+
+theorem cleanup_cell_keys (m0 : Mesh) (l : Lattice) (h : (cleanup m0).1 = .ok l) :
+    l.mesh.cells.map (·.1) = (m0.cells.map (·.1)).filter (fun k => !l.isolated.contains k) :=
+  cleanup_cell_keys' m0 l h
+
+/-- hence: as many cells as contours when no cell was removed as isolated -/
+theorem cells_eq_contours (cs : List (List Px)) (l : Lattice) (h : (createLattice cs false).1 = .ok l)
+    (hi : l.isolated = []) : l.mesh.cells.length = cs.length :=
+  cells_eq_contours' cs l h hi
 
 end Forsys.Skel
